@@ -103,7 +103,10 @@ func (r *Runner) setBarrier(point string, n int) {
 
 // rendezvous: with a point name ending in "*" every arrival at the gate waits briefly for a second goroutine to arrive there too
 // (possible only if the code lets two goroutines into that section at once), and both go on together.
-func (b *barrier) rendezvous() {
+func (b *barrier) rendezvous() { b.rendezvousFor(300 * time.Microsecond) }
+
+// rendezvousFor is called with b.mu held.
+func (b *barrier) rendezvousFor(wait time.Duration) {
 	spin := func(until time.Time) { // both leave the gate at (nearly) the same instant
 		for time.Now().Before(until) {
 		}
@@ -126,7 +129,7 @@ func (b *barrier) rendezvous() {
 		until := b.goAt
 		b.mu.Unlock()
 		spin(until)
-	case <-time.After(300 * time.Microsecond):
+	case <-time.After(wait):
 		b.mu.Lock()
 		if b.waiting == ch {
 			b.waiting = nil
